@@ -8,7 +8,7 @@
 (* Violations are reported through PrintT from an always-true invariant so *)
 (* that one pass collects all of them.                                     *)
 (***************************************************************************)
-EXTENDS Props, Json, IOUtils
+EXTENDS Conform, Json, IOUtils
 
 Trace == ndJsonDeserialize(IOEnv.VT_TRACE)
 Which == IOEnv.VT_PROPS        \* comma separated property ids to evaluate, e.g. "C01,C03"
@@ -81,6 +81,11 @@ Report ==
     H.out.set =>
       \A p \in PropIds :
         (Wants(p) /\ App(p, H) /\ ~Holds(p, H)) => PrintT(<<"L1", p, H.scen, l>>)
+
+\* L2: the design's prediction equals the real output (fault-free, uncancelled, filter-free wire runs)
+L2App(h) == WireRun(h) /\ Len(snt1(h)) >= 1 /\ Len(h.flt) = 0 /\ h.cancel < 0 /\ h.out.panic = ""
+Drift ==
+    (H.out.set /\ Wants("L2") /\ L2App(H) /\ ~Agrees(H, snt1(H), dl1(H))) => PrintT(<<"L2", "drift", H.scen, l>>)
 
 \* acceptance: the whole trace was consumed
 Consumed == TLCGet("level") - 1 = Len(Trace) \/ TRUE
